@@ -50,7 +50,9 @@ def _random(rnd):
     for k in range(nb):
         blocks.append({'interval': rnd.choice([1, 2, 3, 4, 6]), 'count': rnd.choice([NONE, NONE, 0, 1, 2, 3]),
                        'implicit': k == 0 and rnd.random() < 0.35, 'etype': 'ev' if rnd.random() < 0.9 else 'ev2',
-                       'rep': rnd.randint(0, 2)})
+                       'rep': rnd.randint(0, 2),
+                       # stop_timeout=0: no asynchronous clean-up, the block must stop re-sending all the same
+                       'st0': rnd.random() < 0.3})
     horizon = rnd.randint(4, 20)
     script = [{'t': rnd.randint(0, horizon), 'm': rnd.random() < 0.8, 'tag': rnd.randint(1, 5),
                'val': rnd.randint(0, 3), 'extra': rnd.choice([0, 0, 1, 2])} for _ in range(rnd.randint(1, 6))]
@@ -160,7 +162,8 @@ def execute(stim):
                     st['names']['src'] = 8
                 else:
                     blk = edzed.Repeat(f'r{k}', dest=dest, etype=out_etype,
-                                       interval=_interval(b['interval'], b['rep']), count=cnt)
+                                       interval=_interval(b['interval'], b['rep']), count=cnt,
+                                       **({'stop_timeout': 0} if b.get('st0') else {}))
                 st['names'][blk.name] = k
                 st['reps'][k] = blk
                 dest = blk
